@@ -39,11 +39,12 @@ const (
 	FailExitAfter            // non-zero exit after writing every output completely
 	FailSignal               // killed by a signal at a micro-step
 	FailOmit                 // exit 0 without producing one declared output
+	FailDangling             // exit 0 leaving a dangling symbolic link where one declared output should be
 	NumFailModes
 )
 
 func (m FailMode) String() string {
-	return [...]string{"none", "cmd-exit-before", "cmd-exit-partial", "cmd-exit-after", "cmd-signal", "cmd-omit"}[m]
+	return [...]string{"none", "cmd-exit-before", "cmd-exit-partial", "cmd-exit-after", "cmd-signal", "cmd-omit", "cmd-dangling-link"}[m]
 }
 
 type OpInst struct {
@@ -1015,9 +1016,23 @@ func (sh *Shell) runOp(r *shellRun, w []string) (int, string) {
 	if o.Fail == FailOmit && len(o.Outputs) > 0 {
 		omit = o.FailArg % len(o.Outputs)
 	}
+	dangling := -1
+	if o.Fail == FailDangling && len(o.Outputs) > 0 {
+		dangling = o.FailArg % len(o.Outputs)
+	}
 	for idx, p := range o.Outputs {
 		if idx == omit {
 			continue
+		}
+		if idx == dangling {
+			// (cp from a place that does not exist failed quietly; ln -s made the link)
+			if step("symlink-out", p) {
+				return sh.finish(o, -1, "killed")
+			}
+			if n, lerr := fs.Lookup(r.cwd, p); lerr != nil || n.Kind != KFifo {
+				fs.Symlink(r.cwd, p, p+".scratch")
+				continue
+			}
 		}
 		data := OpContent(o.Name, o.InData, o.Params, idx, o.PadTo)
 		if step("create-out", p) {
